@@ -3,7 +3,7 @@ import SpecterModel.C36.Model
 # C36 — The gateway reports tunnel failures with the right status
 
 HTTP: theorems about `classify` (the generated `errorHandler` chain) for EVERY error value = any stack of
-`fmt.Errorf %w` / `net.OpError` wrappers around any innermost error. Streams: theorems about the status
+`fmt.Errorf %w` / `net.OpError` / `url.Error` wrappers around any innermost error. Streams: theorems about the status
 frames of `forwardTCP` and the HTTP statuses of `httpConnect` for every combination of stage outcomes.
 
 `IsTimeout` was repaired in /repo (errors.As instead of a type assertion): `http_timeout` now holds for every
@@ -13,17 +13,29 @@ namespace Specter.C36
 open Gen.C36
 
 theorem timeoutMethod_eq (ws : List Wrap) (k : Kind) :
-    timeoutMethod ws k = (ws.all (fun w => decide (w = .op)) && (decide (k = .deadline) || decide (k = .netTimeout))) := by
+    timeoutMethod ws k = (ws.all Wrap.isNet && (decide (k = .deadline) || decide (k = .netTimeout))) := by
   induction ws with
   | nil => simp [timeoutMethod]
-  | cons w t ih => cases w <;> simp [timeoutMethod, ih]
+  | cons w t ih => cases w <;> simp [timeoutMethod, ih, Wrap.isNet]
 
 theorem asNet_eq (ws : List Wrap) (k : Kind) :
-    asNetErrorTimeout ws k = ((ws.dropWhile (fun w => decide (w = .fmt))).all (fun w => decide (w = .op)) &&
+    asNetErrorTimeout ws k = ((ws.dropWhile (fun w => decide (w = .fmt))).all Wrap.isNet &&
       (decide (k = .deadline) || decide (k = .netTimeout))) := by
   induction ws with
   | nil => simp [asNetErrorTimeout]
-  | cons w t ih => cases w <;> simp [asNetErrorTimeout, ih, timeoutMethod_eq, List.dropWhile]
+  | cons w t ih => cases w <;> simp [asNetErrorTimeout, ih, timeoutMethod_eq, List.dropWhile, Wrap.isNet]
+
+/-- `tun.IsTimeout`, completely: a context deadline under ANY wrapper stack; any other net timeout exactly when,
+below the leading `%w` layers, only `net.Error` wrappers (OpError / url.Error) remain. -/
+theorem isTimeout_iff (ws : List Wrap) (k : Kind) :
+    isTimeout ⟨ws, k⟩ = (decide (k = .deadline) ||
+      (decide (k = .netTimeout) && (ws.dropWhile (fun w => decide (w = .fmt))).all Wrap.isNet)) := by
+  cases k <;> simp [isTimeout, Err.is, asNet_eq]
+
+/-- `tun.IsTimeout` answers true for `context.DeadlineExceeded` however it is wrapped — including inside a
+`net.OpError` / `url.Error` whose own `Timeout()` says false because its direct inner error is a `%w` layer. -/
+theorem isTimeout_deadline (e : Err) (h : e.leaf = .deadline) : isTimeout e = true := by
+  cases e with | mk ws k => subst h; simp [isTimeout, Err.is]
 
 /-- Complete decision table of `errorHandler`, for every wrapper stack. -/
 theorem classify_table (ws : List Wrap) (k : Kind) :
@@ -34,12 +46,12 @@ theorem classify_table (ws : List Wrap) (k : Kind) :
       | .canceled | .eof => .silent
       | .deadline => .status 504
       | .netTimeout =>
-        if (ws.dropWhile (fun w => decide (w = .fmt))).all (fun w => decide (w = .op)) then .status 504 else .status 502
+        if (ws.dropWhile (fun w => decide (w = .fmt))).all Wrap.isNet then .status 504 else .status 502
       | .noDirect | .netOther | .other => .status 502 := by
   cases k <;>
     simp [classify, classifyWith, errorChain, errorDefault, evalCond, Err.is, isTimeout, List.find?, asNet_eq]
-  cases hb : (List.dropWhile (fun w => decide (w = Wrap.fmt)) ws).all fun w => decide (w = Wrap.op) <;>
-    simp_all <;> assumption
+  cases hb : (List.dropWhile (fun w => decide (w = Wrap.fmt)) ws).all Wrap.isNet <;>
+    simp_all
 
 /-- missing tunnel → 404, however deeply the error is wrapped -/
 theorem http_not_found (e : Err) (h : e.leaf = .notFound) : classify e = .status 404 := by
@@ -49,10 +61,10 @@ theorem http_not_found (e : Err) (h : e.leaf = .notFound) : classify e = .status
 theorem http_not_connected (e : Err) (h : e.leaf = .notConnected) : classify e = .status 503 := by
   cases e with | mk ws k => subst h; rw [classify_table]
 
-/-- a timeout → 504: a context deadline or any other net timeout (possibly nested in `net.OpError`s) under ANY
-number of `%w` layers. -/
+/-- a timeout → 504: a context deadline or any other net timeout (possibly nested in `net.OpError`s / `url.Error`s)
+under ANY number of `%w` layers. -/
 theorem http_timeout (fs os : List Wrap) (k : Kind) (hk : k = .deadline ∨ k = .netTimeout)
-    (hf : ∀ w ∈ fs, w = .fmt) (ho : ∀ w ∈ os, w = .op) :
+    (hf : ∀ w ∈ fs, w = .fmt) (ho : ∀ w ∈ os, w.isNet = true) :
     classify ⟨fs ++ os, k⟩ = .status 504 := by
   rw [classify_table]
   rcases hk with rfl | rfl
@@ -62,29 +74,56 @@ theorem http_timeout (fs os : List Wrap) (k : Kind) (hk : k = .deadline ∨ k = 
       | nil =>
         cases os with
         | nil => rfl
-        | cons o t => have := ho o (by simp); subst this; simp
+        | cons o t =>
+          have := ho o (by simp)
+          cases o <;> simp_all [Wrap.isNet]
       | cons f t ih =>
         have := hf f (by simp); subst this
         simp only [List.cons_append, List.dropWhile, decide_true]
         exact ih (fun w hw => hf w (List.mem_cons_of_mem _ hw))
-    have : os.all (fun w => decide (w = .op)) = true := by simpa using ho
+    have : os.all Wrap.isNet = true := by simpa using ho
     simp [hd, this]
 
 /-- a context deadline → 504 under every wrapper stack whatsoever -/
 theorem http_deadline (e : Err) (h : e.leaf = .deadline) : classify e = .status 504 := by
   cases e with | mk ws k => subst h; rw [classify_table]
 
-/-- Residual corner (not in the property's quantifier; recorded as an observation): a `net.OpError` directly
-around a `%w` layer answers `Timeout() = false` itself, so `errors.As` stops there. -/
-theorem operror_over_fmt_hides_net_timeout (ws : List Wrap) :
-    classify ⟨.op :: .fmt :: ws, .netTimeout⟩ = .status 502 := by
-  rw [classify_table]; simp [List.dropWhile]
+/-- The timeout clause for a context deadline, spelled out for the shape that defeats `errors.As` alone: the
+deadline sits under `%w` layers INSIDE a `net.Error` wrapper `n` (OpError / url.Error), itself under any stack.
+The gateway still answers 504. (Instance of `http_deadline`; kept separately because this is the shape the
+harness judges with a SPEC verdict and that `deadline_clause_is_needed` shows to be the delicate one.) -/
+theorem http_deadline_inside_net_wrapper (pre post : List Wrap) (n : Wrap) :
+    classify ⟨pre ++ n :: .fmt :: post, .deadline⟩ = .status 504 := by
+  rw [classify_table]
+
+/-- Why the first clause of `tun.IsTimeout` (`errors.Is(err, context.DeadlineExceeded)`) is needed: with only the
+`errors.As(err, &netErr)` → `Timeout()` branch, a deadline that is `%w`-wrapped inside a `net.OpError` / `url.Error`
+(under any number of outer `%w` layers) would be reported as 502, not 504. -/
+theorem deadline_clause_is_needed (fs post : List Wrap) (n : Wrap) (hf : ∀ w ∈ fs, w = .fmt) (hn : n.isNet = true) :
+    classifyWith isTimeoutAsOnly ⟨fs ++ n :: .fmt :: post, .deadline⟩ = .status 502 ∧
+    classify ⟨fs ++ n :: .fmt :: post, .deadline⟩ = .status 504 := by
+  refine ⟨?_, by rw [classify_table]⟩
+  have hd : (fs ++ n :: .fmt :: post).dropWhile (fun w => decide (w = .fmt)) = n :: .fmt :: post := by
+    induction fs with
+    | nil => cases n <;> simp_all [Wrap.isNet]
+    | cons f t ih =>
+      have := hf f (by simp); subst this
+      simp only [List.cons_append, List.dropWhile, decide_true]
+      exact ih (fun w hw => hf w (List.mem_cons_of_mem _ hw))
+  simp [classifyWith, errorChain, errorDefault, evalCond, Err.is, isTimeoutAsOnly, List.find?, asNet_eq, hd, Wrap.isNet]
+
+/-- Residual corner (outside the property's quantifier for net timeouts OTHER than the context deadline; recorded
+as an observation): a `net.OpError` / `url.Error` directly around a `%w` layer answers `Timeout() = false` itself,
+so `errors.As` stops there. -/
+theorem operror_over_fmt_hides_net_timeout (ws : List Wrap) (n : Wrap) (hn : n.isNet = true) :
+    classify ⟨n :: .fmt :: ws, .netTimeout⟩ = .status 502 := by
+  rw [classify_table]; cases n <;> simp_all [List.dropWhile, Wrap.isNet]
 
 /-- The defect that was fixed by commit "fix: detect wrapped network timeouts", as a theorem about the PRE-FIX
 `IsTimeout` (type assertion on the outermost value): any `%w` layer turned a net timeout into 502. -/
 theorem prefix_wrapped_net_timeout_is_502 (ws : List Wrap) (h : .fmt ∈ ws) :
     classifyWith isTimeoutPreFix ⟨ws, .netTimeout⟩ = .status 502 := by
-  have : ws.all (fun w => decide (w = .op)) = false := by
+  have : ws.all Wrap.isNet = false := by
     rw [List.all_eq_false]; exact ⟨.fmt, h, by decide⟩
   simp [classifyWith, errorChain, errorDefault, evalCond, Err.is, isTimeoutPreFix, List.find?, timeoutMethod_eq, this]
 
@@ -180,6 +219,11 @@ example : classify ⟨[.op, .op], .netTimeout⟩ = .status 504 := by decide
 example : classify ⟨[.fmt, .fmt, .op], .netTimeout⟩ = .status 504 := by decide
 example : classifyWith isTimeoutPreFix ⟨[.fmt], .netTimeout⟩ = .status 502 := by decide   -- the repaired defect
 example : classify ⟨[.op, .fmt], .netTimeout⟩ = .status 502 := by decide
+example : classify ⟨[.url, .fmt], .deadline⟩ = .status 504 := by decide           -- http_deadline_inside_net_wrapper
+example : classify ⟨[.fmt, .op, .fmt], .deadline⟩ = .status 504 := by decide
+example : isTimeout ⟨[.op, .fmt], .deadline⟩ = true ∧ isTimeoutAsOnly ⟨[.op, .fmt], .deadline⟩ = false := by decide
+example : classifyWith isTimeoutAsOnly ⟨[.fmt, .url, .fmt], .deadline⟩ = .status 502 := by decide   -- deadline_clause_is_needed
+example : classify ⟨[.fmt, .url, .op], .netTimeout⟩ = .status 504 := by decide
 example : classify ⟨[], .other⟩ = .status 502 := by decide
 example : failed none true (some ⟨[.fmt], .notConnected⟩) ∧
     forwardTCP none true (some ⟨[.fmt], .notConnected⟩) = [.dial, .send .noDirect, .close] := by
